@@ -1264,8 +1264,15 @@ theorem code_structure_as_modelled :
     F3.Gen.SkelGpbft.skelSkipToRound = F3.SkelTie.SkelGpbft.skelSkipToRoundExpected ∧
     F3.Gen.SkelGpbft.skelTryRebroadcast = F3.SkelTie.SkelGpbft.skelTryRebroadcastExpected ∧
     F3.Gen.SkelGpbft.skelReceiveEachPrefix = F3.SkelTie.SkelGpbft.skelReceiveEachPrefixExpected ∧
-    F3.Gen.SkelGpbft.skelFindStrongQuorumFor = F3.SkelTie.SkelGpbft.skelFindStrongQuorumForExpected :=
-  ⟨F3.SkelTie.SkelGpbft.skelQueueAdd_expected, F3.SkelTie.SkelGpbft.skelQueueDrain_expected, F3.SkelTie.SkelGpbft.skelReceiveMessage_expected, F3.SkelTie.SkelGpbft.skelHandleDecision_expected, F3.SkelTie.SkelGpbft.skelReceiveOne_expected, F3.SkelTie.SkelGpbft.skelPostReceive_expected, F3.SkelTie.SkelGpbft.skelTryQuality_expected, F3.SkelTie.SkelGpbft.skelTryConverge_expected, F3.SkelTie.SkelGpbft.skelTryPrepare_expected, F3.SkelTie.SkelGpbft.skelTryCommit_expected, F3.SkelTie.SkelGpbft.skelTryDecide_expected, F3.SkelTie.SkelGpbft.skelBeginDecide_expected, F3.SkelTie.SkelGpbft.skelSkipToRound_expected, F3.SkelTie.SkelGpbft.skelTryRebroadcast_expected, F3.SkelTie.SkelGpbft.skelReceiveEachPrefix_expected, F3.SkelTie.SkelGpbft.skelFindStrongQuorumFor_expected⟩
+    F3.Gen.SkelGpbft.skelFindStrongQuorumFor = F3.SkelTie.SkelGpbft.skelFindStrongQuorumForExpected ∧
+    F3.Gen.SkelGpbft.skelBeginInstance = F3.SkelTie.SkelGpbft.skelBeginInstanceExpected ∧
+    F3.Gen.SkelGpbft.skelReceiveAlarm = F3.SkelTie.SkelGpbft.skelReceiveAlarmExpected ∧
+    F3.Gen.SkelGpbft.skelHasBase = F3.SkelTie.SkelGpbft.skelHasBaseExpected ∧
+    F3.Gen.SkelGpbft.skelTipSetEqual = F3.SkelTie.SkelGpbft.skelTipSetEqualExpected ∧
+    F3.Gen.SkelGpbft.skelChainEq = F3.SkelTie.SkelGpbft.skelChainEqExpected ∧
+    F3.Gen.SkelGpbft.skelReceiveMany = F3.SkelTie.SkelGpbft.skelReceiveManyExpected ∧
+    F3.Gen.SkelGpbft.skelShouldSkipToRound = F3.SkelTie.SkelGpbft.skelShouldSkipToRoundExpected :=
+  ⟨F3.SkelTie.SkelGpbft.skelQueueAdd_expected, F3.SkelTie.SkelGpbft.skelQueueDrain_expected, F3.SkelTie.SkelGpbft.skelReceiveMessage_expected, F3.SkelTie.SkelGpbft.skelHandleDecision_expected, F3.SkelTie.SkelGpbft.skelReceiveOne_expected, F3.SkelTie.SkelGpbft.skelPostReceive_expected, F3.SkelTie.SkelGpbft.skelTryQuality_expected, F3.SkelTie.SkelGpbft.skelTryConverge_expected, F3.SkelTie.SkelGpbft.skelTryPrepare_expected, F3.SkelTie.SkelGpbft.skelTryCommit_expected, F3.SkelTie.SkelGpbft.skelTryDecide_expected, F3.SkelTie.SkelGpbft.skelBeginDecide_expected, F3.SkelTie.SkelGpbft.skelSkipToRound_expected, F3.SkelTie.SkelGpbft.skelTryRebroadcast_expected, F3.SkelTie.SkelGpbft.skelReceiveEachPrefix_expected, F3.SkelTie.SkelGpbft.skelFindStrongQuorumFor_expected, F3.SkelTie.SkelGpbft.skelBeginInstance_expected, F3.SkelTie.SkelGpbft.skelReceiveAlarm_expected, F3.SkelTie.SkelGpbft.skelHasBase_expected, F3.SkelTie.SkelGpbft.skelTipSetEqual_expected, F3.SkelTie.SkelGpbft.skelChainEq_expected, F3.SkelTie.SkelGpbft.skelReceiveMany_expected, F3.SkelTie.SkelGpbft.skelShouldSkipToRound_expected⟩
 
 end Skeletons
 end F3.Props.C06
